@@ -105,6 +105,7 @@ type Cfg struct {
 	FirstContent string `json:"first_content,omitempty"`  // what that function returns ("-" = empty content; unset = "first")
 	ResetOnEmpty bool   `json:"reset_on_empty,omitempty"` // engine.Config.ResetOnEmptyInput
 	FinishLate   bool   `json:"finish_late,omitempty"`    // Finish is called once, when an engine is retired (as engine.Loop's defer), not after every request
+	SharePersister bool `json:"share_persister,omitempty"` // one persist.Persister (WithFlush) is reused for every engine of every session of the world
 }
 
 // ---------------------------------------------------------------------------------------
@@ -186,6 +187,8 @@ type World struct {
 	ResFor   func(s *Sess) resource.Resource // optional override of the resource stack
 	Disk     *simfs.FS
 	Pg       *pgfake.Server
+	sharedPe      *persist.Persister
+	sharedPeStore db.Db
 	// Fired counts the faults that actually reached the library, by kind (evidence only; never feeds a decision).
 	Fired map[string]int
 }
@@ -449,7 +452,16 @@ func (s *Sess) build() error {
 		if s.W.Cfg.SetSession {
 			s.Store.SetSession(s.ID)
 		}
-		s.Pe = persist.NewPersister(s.Store)
+		if s.W.Cfg.SharePersister {
+			// a gateway that keeps one flushing persister over its one store handle
+			if s.W.sharedPe == nil || s.W.sharedPeStore != s.Store {
+				s.W.sharedPe = persist.NewPersister(s.Store).WithFlush()
+				s.W.sharedPeStore = s.Store
+			}
+			s.Pe = s.W.sharedPe
+		} else {
+			s.Pe = persist.NewPersister(s.Store)
+		}
 		s.Eng = engine.NewEngine(s.engineCfg(), s.resource()).WithPersister(s.Pe)
 		s.St = nil
 		s.Ca = nil
@@ -571,6 +583,12 @@ func (s *Sess) Request(input []byte, fresh bool) *Step {
 		if ferr != nil {
 			st.FinishErr = ferr.Error()
 		}
+	}
+	if s.W.Cfg.SharePersister && s.W.sharedPe != nil && (st.ExecErr != "" || st.FlushErr != "" || st.FinishErr != "" || !st.Finished) {
+		// the engine does not flush a reused persister when a request fails before or instead of
+		// the save; a gateway that reuses one has to drop its content itself
+		s.W.sharedPe.WithContent(nil, nil)
+		s.W.Rec.Add(s.Idx, "DropPersisterContent", "", "")
 	}
 	res := "ok"
 	if st.ExecErr != "" {
